@@ -22,6 +22,14 @@ def versionHandler : Handler
                     && Spec.Version.nulFree b.upstream && Spec.Version.nulFree b.revision
                   then toString (Spec.Version.ordInt (Spec.Version.compare a b)) else "any"
       pure (toString (sgn (Version.compare a b)) ++ " ; spec=" ++ spec)
+  -- verless: `Slice{a, b}.Less(0, 1)`, the sort adapter: Compare(a, b) < 0
+  | "verless", [ea, ua, ra, eb, ub, rb] => do
+      let a ← readVersion ea ua ra
+      let b ← readVersion eb ub rb
+      let spec := if Spec.Version.nulFree a.upstream && Spec.Version.nulFree a.revision
+                    && Spec.Version.nulFree b.upstream && Spec.Version.nulFree b.revision
+                  then toString (decide (Spec.Version.ordInt (Spec.Version.compare a b) < 0)) else "any"
+      pure (toString (decide (Version.compare a b < 0)) ++ " ; spec=" ++ spec)
   | "verrev", [a, b] => do
       let a ← hx a
       let b ← hx b
